@@ -481,6 +481,7 @@ pub fn run_batch(prop: &dyn Property, tier: Tier) -> i32 {
     }
 
     let mut exit = 0;
+    let mut unreproduced = 0u32;
     let mut reported = vec![];
     // report at most 3 distinct signatures
     let mut seen_sig = BTreeSet::new();
@@ -565,16 +566,30 @@ pub fn run_batch(prop: &dyn Property, tier: Tier) -> i32 {
             }
         }
         if !reproduced {
-            eprintln!(
-                "harness error: no form of {} reproduces in a fresh process",
-                path.display()
-            );
-            return 2;
+            let _ = std::fs::remove_file(&path);
+            if exit == 1 {
+                // another violation of this batch has been reported with a replay file that does
+                // reproduce; this one depends on something the case does not capture and is dropped
+                eprintln!(
+                    "note: a further violation (class {}) does not reproduce in a fresh process in any form; not reported",
+                    v.class
+                );
+                continue;
+            }
+            unreproduced += 1;
+            continue;
         }
         println!("violation class={} detail={}", v.class, detail);
         println!("VIOLATION property={} replay={}", prop.id(), path.display());
         reported.push(json!({"class": v.class, "detail": detail, "replay": path.display().to_string()}));
         exit = 1;
+    }
+
+    if exit == 0 && unreproduced > 0 {
+        eprintln!(
+            "harness error: {unreproduced} violation(s) seen in the batch, none of which reproduces in a fresh process in any form (minimised, as found, whole unit)"
+        );
+        return 2;
     }
 
     // evidence
